@@ -97,12 +97,14 @@ STRICT = ['-std=c++17', '-O2', '-fno-fast-math', '-ffp-contract=off', '-w']
 
 def compile_cxx(name, sources, flags=None, compiler='g++', libs=(), extra_inc=(), timeout=3000,
                 allow_fail=False):
-    """Compile (cached by include hash + source text + flags) one binary from source files.
-    sources: list of paths (each compiled as its own TU in parallel, then linked)."""
+    """Compile one binary from source files.  Each source is its own TU, compiled in parallel; objects are
+    cached by (include-tree hash, compiler, flags, source text), the binary by the set of objects."""
     flags = list(STRICT if flags is None else flags)
     texts = [open(s, 'rb').read() for s in sources]
-    key = sha(compiler, ' '.join(flags), ' '.join(libs), *texts)
+    okeys = [sha(compiler, ' '.join(flags), ' '.join(extra_inc), t) for t in texts]
+    key = sha(' '.join(libs), *okeys)
     d = cache_dir('bin')
+    od = cache_dir('obj')
     out = os.path.join(d, f'{name}.{key}')
     with Lock(out + '.lock'):
         if os.path.exists(out):
@@ -111,37 +113,39 @@ def compile_cxx(name, sources, flags=None, compiler='g++', libs=(), extra_inc=()
         t0 = time.time()
         incs = ['-I' + INC, '-I' + HARNESS] + ['-I' + i for i in extra_inc]
         objs, procs = [], []
-        for i, s in enumerate(sources):
-            o = f'{out}.{i}.o'
+        for s, k in zip(sources, okeys):
+            o = os.path.join(od, k + '.o')
             objs.append(o)
-            cmd = [compiler] + flags + incs + ['-c', s, '-o', o]
-            procs.append((cmd, subprocess.Popen(cmd, stdout=subprocess.PIPE, stderr=subprocess.STDOUT)))
+            if os.path.exists(o):
+                continue
+            cmd = [compiler] + flags + incs + ['-c', s, '-o', o + f'.{os.getpid()}.tmp']
+            procs.append((o, cmd, subprocess.Popen(cmd, stdout=subprocess.PIPE, stderr=subprocess.STDOUT)))
         errs = []
-        for cmd, p in procs:
+        for o, cmd, p in procs:
             try:
-                o, _ = p.communicate(timeout=timeout)
+                txt, _ = p.communicate(timeout=timeout)
             except subprocess.TimeoutExpired:
                 p.kill()
                 raise ToolError(f'compile timeout: {name}')
+            tmp = o + f'.{os.getpid()}.tmp'
             if p.returncode != 0:
-                errs.append(o.decode(errors='replace'))
+                errs.append(txt.decode(errors='replace'))
+                if os.path.exists(tmp):
+                    os.remove(tmp)
+            else:
+                os.rename(tmp, o)
         if errs:
-            for o in objs:
-                if os.path.exists(o):
-                    os.remove(o)
             if allow_fail:
                 return ('FAILED', '\n'.join(errs))
-            raise ToolError(f'compile failed: {name}\n' + '\n'.join(errs)[-6000:])
+            raise ToolError(f'compile failed: {name}\n' + '\n'.join(e[-3000:] for e in errs[:2]))
         cmd = [compiler] + [f for f in flags if f.startswith('-fsanitize') or f in ('-pthread', '-static-libasan')] + objs + ['-o', out + '.tmp'] + list(libs)
         r = subprocess.run(cmd, stdout=subprocess.PIPE, stderr=subprocess.STDOUT)
-        for o in objs:
-            os.remove(o)
         if r.returncode != 0:
             if allow_fail:
                 return ('FAILED', r.stdout.decode(errors='replace'))
             raise ToolError(f'link failed: {name}\n' + r.stdout.decode(errors='replace')[-4000:])
         os.rename(out + '.tmp', out)
-        log(f'[build] {name} ({compiler}) {time.time() - t0:.1f}s')
+        log(f'[build] {name} ({compiler}) {len(procs)}/{len(sources)} TUs compiled, {time.time() - t0:.1f}s')
     return out
 
 
